@@ -64,7 +64,7 @@ Lemma open_master c st T stk ids total id sl osz rest inner :
   N.of_nat (length (id_bytes id) + fsl sl osz) + inner <= total -> (forall n, osz = Some n -> inner <= n) ->
   exists st1, pre c st1 [] (mframe (b_off st) id sl osz :: stk) (ids ++ [id]) inner /\ b_bytes st1 = rest /\
     b_off st1 = b_off st + N.of_nat (length (id_bytes id) + fsl sl osz) /\ b_fuel st1 = b_fuel st /\ b_det st1 = true /\
-    forall n, snd (p_run_all (length T + 1 + n) c st) = map end_out T ++ OItem (TStart id) (b_off st) :: snd (p_run_all n c st1).
+    forall n, p_run_all (length T + 1 + n) c st = rcat (map end_out T ++ [OItem (TStart id) (b_off st)]) (p_run_all n c st1).
 Proof.
   intros Hstrict Hnb Hpre Hid Hwf Hsz Hb Hty Hpath Hmax Htot Hinner Hin.
   set (hl := N.of_nat (length (id_bytes id) + fsl sl osz)) in *.
@@ -201,12 +201,12 @@ Lemma descend c : strict c -> c_buffered c = [] -> forall L ids st T stk rest in
   conf_levels c ids L inner -> pre c st T stk ids (levels_ext L inner) -> b_bytes st = enc_levels L ++ rest -> wf_bytes rest ->
   exists st', pre c st' (lv_T (b_off st) T L) (lv_stk (b_off st) stk L) (lv_ids ids L) inner /\ b_bytes st' = rest /\
     b_off st' = b_off st + levels_len L /\ b_fuel st' = b_fuel st /\ (b_det st = true -> b_det st' = true) /\ (L <> [] -> b_det st' = true) /\
-    forall n, snd (p_run_all (length (lv_outs (b_off st) T L) + n) c st) = lv_outs (b_off st) T L ++ snd (p_run_all n c st').
+    forall n, p_run_all (length (lv_outs (b_off st) T L) + n) c st = rcat (lv_outs (b_off st) T L) (p_run_all n c st').
 Proof.
   intros Hstrict Hnb. induction L as [|lv L IH]; intros ids st T stk rest inner Hc Hpre Hb Hwf.
   - exists st. cbn [lv_T lv_stk lv_ids lv_outs enc_levels app length levels_ext] in *. unfold levels_len. cbn [enc_levels length].
     rewrite N.add_0_r. split; [exact Hpre|]. split; [exact Hb|]. split; [reflexivity|]. split; [reflexivity|]. split; [auto|].
-    split; [intros H; contradiction H; reflexivity|intros n; reflexivity].
+    split; [intros H; contradiction H; reflexivity|intros n; symmetry; apply rcat_nil].
   - destruct Hc as [Hf [Hid [Hty [Hpath [Hsz [Hmax [Hin HL]]]]]]]. cbn [levels_ext] in Hpre.
     cbn [enc_levels] in Hb. rewrite <- !app_assoc in Hb.
     set (f := lv_f lv) in *. set (id := lv_id lv) in *. set (sl := lv_sl lv) in *. set (osz := lv_size lv) in *.
@@ -243,7 +243,7 @@ Proof.
              (length (pend_after (b_off st) f T) + S (length (lv_outs (b_off st + flen f + lv_hl lv) [] L))) + n)%nat
       with (length (outs_forest (b_off st) f T) +
             (length (pend_after (b_off st) f T) + 1 + (length (lv_outs (b_off st + flen f + lv_hl lv) [] L) + n)))%nat by lia.
-    rewrite Hrun1, Hrun2, Hrun3. rewrite <- !app_assoc. reflexivity.
+    rewrite Hrun1, Hrun2, Hrun3, !rcat_rcat. f_equal. rewrite <- !app_assoc. reflexivity.
 Qed.
 
 (* ------------------------------------------------------------------ the input ends inside a tag *)
@@ -538,7 +538,7 @@ Proof.
     replace (4 * length input + 64)%nat with (a + (b + (length P + S (4 * length input + 63 - a - b - length P))))%nat by lia.
     rewrite Hrun1, Hrun2.
     pose proof (eof_ends c st2 (4 * length input + 63 - a - b - length P) A1 A4 A5 Hf2 He) as Hend. rewrite A3 in Hend. fold P in Hend.
-    rewrite Hend. reflexivity.
+    unfold rcat. cbn [snd]. rewrite Hend. reflexivity.
   - (* the cut is inside a tag *)
     destruct Htl as [Hx Hk]. cbn [tail_bytes tail_ext] in *.
     assert (Hext : tlen x <= inner - flen f) by (unfold inner; lia).
@@ -546,5 +546,5 @@ Proof.
     set (k1 := exhausted_count (levels_len L + flen f) P) in *.
     assert (Hk1 : (k1 <= length P)%nat) by apply exh_le.
     replace (4 * length input + 64)%nat with (a + (b + (k1 + S (4 * length input + 63 - a - b - k1))))%nat by lia.
-    rewrite Hrun1, Hrun2, Htr. reflexivity.
+    rewrite Hrun1, Hrun2. unfold rcat. cbn [snd]. rewrite Htr. reflexivity.
 Qed.
